@@ -31,6 +31,16 @@ NEUTRAL_STYLE = ("a third kind of clean-up than simple renames or extract-method
                  "`dict.get(k)` + None test <-> `k in dict` + lookup; f-strings <-> % formatting in log/exception messages ONLY when the text is identical")
 
 
+NEUTRAL_STYLES = {
+    "Q": ("pick TWO OR THREE different kinds of clean-up and apply them to different anchor functions: extract a private helper method from a long "
+          "function (keeping every await in the caller or moving the whole awaited block); inline a tiny private helper into its only caller; hoist a "
+          "repeated attribute chain (`self._a.b`) into a local; turn an index loop into `enumerate`/`zip`; replace manual dict building by a "
+          "comprehension or the reverse; replace `if x: return True; return False` by `return bool(x)`-style returns ONLY when x is already a bool; "
+          "use tuple-unpacking instead of indexing; early `return`/`continue` guard clauses; merge or split conditions; rename LOCAL variables and "
+          "private helper PARAMETERS for clarity; reorder two adjacent independent statements (no shared state, no awaits between them)"),
+}
+
+
 def main():
     kind, suffix = sys.argv[1], sys.argv[2]
     only = sys.argv[3:]
@@ -63,7 +73,7 @@ def main():
                     pass
             out = out.replace("@HINT@", SEED_HINTS.get(suffix, SEED_HINTS["F"]).replace("@PRIOR@", "\n".join(prior)))
         else:
-            out = out.replace("@STYLE@", NEUTRAL_STYLE)
+            out = out.replace("@STYLE@", NEUTRAL_STYLES.get(suffix, NEUTRAL_STYLE))
         open(f"{base}/PROMPT.md", "w").write(out)
         print(sid, wt)
 
